@@ -75,4 +75,73 @@ theorem c04_library_answer_supported (r : Requested) :
 example : serverAnswer supported handlerDefault (.str "1999-01-01") ∈ supported :=
   c04_library_answer_supported _
 
+/-! ## End to end: the library client (model of C03) against the library server -/
+
+/-- Every handshake that the client accepts is agreed on a version BOTH sides support, and the
+server's session records that very version. -/
+theorem c04_handshake_sound (c : List String) (pref : Option String) (s : List String)
+    (dflt : Option String) (hs : s ≠ []) (v : String) (w : List Ev) (sess : Option String)
+    (h : handshake c pref s dflt = (.ok v, w, sess)) :
+    v ∈ c ∧ v ∈ s ∧ sess = some v := by
+  unfold handshake at h
+  split at h
+  · simp at h
+  · rename_i p hp
+    simp only [Prod.mk.injEq] at h
+    obtain ⟨h1, h2, h3⟩ := h
+    have hc : clientInit c pref (.version (handleInitialize s dflt (.str p)).answered)
+        = (.ok v, w) := by rw [← h1, ← h2]
+    obtain ⟨hv, ha⟩ := Verif.Lemmas.Version.clientInit_ok hc
+    simp only [Answer.version.injEq] at ha
+    have hm : (handleInitialize s dflt (.str p)).answered ∈ s :=
+      (c04_session_records_answer s dflt (.str p) hs).2.1 ▸ serverAnswer_mem s dflt (.str p) hs
+    refine ⟨hv, ha ▸ hm, ?_⟩
+    rw [← h3]
+    exact congrArg some ha
+
+/-- No third outcome: with non-empty lists on both sides a handshake ends agreed, or with the
+version-mismatch error on the client (never a timeout, a validation failure or a JSON-RPC error),
+and after a mismatch no `initialized` notification was sent. -/
+theorem c04_handshake_total (c : List String) (pref : Option String) (s : List String)
+    (dflt : Option String) (hc : c ≠ []) :
+    (∃ v, (handshake c pref s dflt).1 = .ok v)
+    ∨ ((handshake c pref s dflt).1 = .mismatch ∧ Ev.sent .initialized ∉ (handshake c pref s dflt).2.1) := by
+  obtain ⟨p, hp⟩ := proposed_isSome pref hc
+  unfold handshake
+  rw [hp]
+  simp only []
+  generalize (handleInitialize s dflt (.str p)).answered = a
+  unfold clientInit
+  rw [hp]
+  simp only []
+  split
+  · left; exact ⟨a, rfl⟩
+  · right; simp
+
+/-- When the server supports what the client proposes the handshake agrees on exactly that. -/
+theorem c04_handshake_common (c : List String) (pref : Option String) (s : List String)
+    (dflt : Option String) (p : String) (hp : proposed c pref = some p) (hps : p ∈ s) :
+    (handshake c pref s dflt).1 = .ok p := by
+  have hs : s ≠ [] := List.ne_nil_of_mem hps
+  have he : serverAnswer s dflt (.str p) = p := (c04_echo_iff s dflt p hs).2 hps
+  unfold handshake
+  rw [hp]
+  simp only [handleInitialize, he]
+  unfold clientInit
+  rw [hp]
+  simp
+
+example : handshake ["2026-01-01", "2024-11-05"] none ["2025-06-18", "2024-11-05"] none
+      = (.mismatch, [.sent (.initialize "2026-01-01"), .answered], some "2025-06-18")
+    ∧ handshake ["2026-01-01", "2025-06-18"] none ["2025-06-18", "2024-11-05"] none
+      = (.ok "2025-06-18", [.sent (.initialize "2026-01-01"), .answered, .sent .initialized], some "2025-06-18")
+    ∧ handshake ["2026-01-01", "2024-11-05"] (some "2024-11-05") ["2025-06-18", "2024-11-05"] none
+      = (.ok "2024-11-05", [.sent (.initialize "2024-11-05"), .answered, .sent .initialized], some "2024-11-05") := by decide
+
+/-- Instance for the shipped server (regenerated constants) against ANY client list. -/
+theorem c04_library_handshake (c : List String) (pref : Option String) (v : String) (w : List Ev)
+    (sess : Option String) (h : handshake c pref supported handlerDefault = (.ok v, w, sess)) :
+    v ∈ c ∧ v ∈ supported ∧ sess = some v :=
+  c04_handshake_sound c pref supported handlerDefault (by decide) v w sess h
+
 end Verif.Props.C04
